@@ -56,50 +56,46 @@ Qed.
 
 (* ------------------------------------------------------------------ volume sizes *)
 
-(* every documented size is accepted and converted to the number of bytes it denotes: FALSE *)
-Lemma volsize_accepts_help_grammar_refuted :
-  exists s, in_help_grammar s = true /\ volumesize_unitconv s = Err EOther
-            /\ check_volumesize_valid s = true /\ volumesize_unitconv_x s = UcKeyError.
-Proof. exists [49; 48; 48; 48]. vm_compute. auto. Qed.
-
-(* in fact no documented size without a unit letter is converted *)
-Lemma volsize_unitless_always_fails : forall s,
-  in_help_grammar s = true -> has_unit_suffix s = false -> volumesize_unitconv s = Err EOther.
+(* every documented size (at most 4300 digits) is accepted and converted to the number of bytes it
+   denotes; without a unit letter the size is a number of bytes *)
+Lemma volsize_accepts_help_grammar : forall s,
+  in_help_grammar s = true -> num_digits s <= 4300 ->
+  check_volumesize_valid s = true /\ volumesize_unitconv s = Ok (help_size s).
 Proof.
-  intros s Hg Hu. unfold in_help_grammar, has_unit_suffix, volumesize_unitconv, volumesize_unitconv_x,
-    unit_pattern_match in *.
-  destruct (span_digits s) as [num rest]. cbn in Hu.
+  intros s Hg Hl. unfold in_help_grammar, num_digits, check_volumesize_valid, volumesize_unitconv,
+    volumesize_unitconv_x, unit_pattern_match, help_size in *.
+  destruct (span_digits s) as [num rest] eqn:Hs. cbn [fst] in Hl.
   destruct num as [|n0 num]; [discriminate|].
-  destruct rest as [|c rest]; [|discriminate].
-  destruct (py_int (n0 :: num)); reflexivity.
-Qed.
-
-(* what does hold: a documented size WITH a unit letter (and at most 4300 digits) is converted to
-   the number of bytes it denotes *)
-Lemma volsize_accepts_help_grammar_partial : forall s,
-  in_help_grammar s = true -> has_unit_suffix s = true -> Z.of_nat (length s) <= 4301 ->
-  volumesize_unitconv s = Ok (help_size s).
-Proof.
-  intros s Hg Hu Hl. unfold in_help_grammar, has_unit_suffix, volumesize_unitconv, volumesize_unitconv_x,
-    unit_pattern_match, help_size in *.
-  destruct (span_digits s) as [num rest] eqn:Hs. cbn in Hu.
-  destruct (span_digits_spec _ _ _ Hs) as (Happ & Hd & Hh).
-  destruct num as [|n0 num]; [discriminate|].
-  destruct rest as [|c rest]; [discriminate|].
-  destruct rest as [|c2 rest]; [|discriminate].
-  destruct (unit_lower_ci c Hg) as (Hci & H10 & _).
-  rewrite H10, Hci.
-  assert (Hlen : Z.of_nat (length (n0 :: num)) <= 4300).
-  { subst s. rewrite app_length in Hl. cbn [length] in *. lia. }
   unfold py_int, max_str_digits.
-  destruct (4300 <? Z.of_nat (length (n0 :: num))) eqn:Hgt; [lia|].
-  rewrite dunits_ascii; [reflexivity|]. unfold is_unit_ascii. rewrite Hg. reflexivity.
+  destruct rest as [|c rest].
+  - destruct (4300 <? Z.of_nat (length (n0 :: num))) eqn:Hgt; [lia|]. split; [reflexivity|].
+    rewrite Z.mul_1_r. reflexivity.
+  - destruct rest as [|c2 rest]; [|discriminate].
+    destruct (unit_lower_ci c Hg) as (Hci & H10 & _). rewrite H10, Hci.
+    destruct (4300 <? Z.of_nat (length (n0 :: num))) eqn:Hgt; [lia|]. split; [reflexivity|].
+    rewrite dunits_ascii; [reflexivity|]. unfold is_unit_ascii. rewrite Hg. reflexivity.
 Qed.
 
-(* more than 4300 digits: int() refuses *)
+(* the digit-count limit of int() is the only obstacle: beyond it the conversion raises ValueError *)
+Lemma volsize_digit_limit : forall s,
+  in_help_grammar s = true -> 4300 < num_digits s -> volumesize_unitconv_x s = UcValueError.
+Proof.
+  intros s Hg Hl. unfold in_help_grammar, num_digits, volumesize_unitconv_x, unit_pattern_match in *.
+  destruct (span_digits s) as [num rest] eqn:Hs. cbn [fst] in Hl.
+  destruct num as [|n0 num]; [discriminate|].
+  unfold py_int, max_str_digits.
+  destruct rest as [|c rest].
+  - destruct (4300 <? Z.of_nat (length (n0 :: num))) eqn:Hgt; [reflexivity|lia].
+  - destruct rest as [|c2 rest]; [|discriminate].
+    destruct (unit_lower_ci c Hg) as (Hci & H10 & _). rewrite H10, Hci.
+    destruct (4300 <? Z.of_nat (length (n0 :: num))) eqn:Hgt; [reflexivity|lia].
+Qed.
+
+(* so the statement without the bound is false *)
 Lemma volsize_too_many_digits_refuted :
-  exists s, in_help_grammar s = true /\ has_unit_suffix s = true /\ volumesize_unitconv_x s = UcValueError.
+  exists s, in_help_grammar s = true /\ volumesize_unitconv_x s = UcValueError.
 Proof. exists (repeatZ 49 (Z.to_nat 4301) ++ [107]). vm_compute. auto. Qed.
+
 
 (* the unit multipliers, both cases *)
 Lemma unit_multipliers : forall num c,
@@ -178,7 +174,7 @@ Proof. exists [49; 75], [49; 107; 10], [49; 8490]. vm_compute. auto 10. Qed.
 (* the validity check does not protect the conversion: FALSE that valid sizes convert *)
 Lemma valid_implies_convertible_refuted :
   exists s, check_volumesize_valid s = true /\ volumesize_unitconv s = Err EOther.
-Proof. exists [49; 48; 48; 48]. vm_compute. auto. Qed.
+Proof. exists [49; 8490]. vm_compute. auto. Qed.
 
 (* strings the check rejects are answered -1, never an exception *)
 Lemma invalid_gives_minus_one : forall s, check_volumesize_valid s = false -> volumesize_unitconv s = Ok (-1).
@@ -227,64 +223,39 @@ Proof.
   destruct H as [H|[H|H]]; congruence.
 Qed.
 
-(* t : FALSE in general *)
-Lemma exit_status_truthful_t_refuted :
-  exists L, cli_status CmdT L = Some 0 /\ test_success L = false /\ l_work L = Some (XCrc false)
-            /\ proc_status (run_extract false false L) = 1.
+(* t : status 0 exactly when every step succeeded *)
+Lemma test_status_bool : forall L, (proc_status (run_test L) =? 0) = test_success L.
 Proof.
-  exists {| l_is7z := true; l_getpass_warn := false; l_open := None; l_info := None; l_work := Some (XCrc false) |}.
-  vm_compute. auto.
-Qed.
-
-Lemma test_status_bool : forall L, l_work L <> Some (XCrc false) ->
-  (proc_status (run_test L) =? 0) = test_success L.
-Proof.
-  intros [i g o inf w] Hw. unfold run_test, test_success. cbn in *.
+  intros [i g o inf w]. unfold run_test, test_success. cbn in *.
   destruct i; cbn; [|reflexivity].
-  dex o; cbn; try reflexivity; dex inf; cbn; try reflexivity; dex w; cbn; try reflexivity; congruence.
+  dex o; cbn; try reflexivity; dex inf; cbn; try reflexivity; dex w; reflexivity.
 Qed.
 
-(* what does hold for t: the folder-level CRC mismatch is the only outcome that is mis-reported *)
-Lemma exit_status_truthful_t_partial : forall L, l_work L <> Some (XCrc false) ->
-  (cli_status CmdT L = Some 0 <-> test_success L = true).
+Lemma exit_status_truthful_t : forall L, cli_status CmdT L = Some 0 <-> test_success L = true.
 Proof.
-  intros L Hw. unfold cli_status. cbn. rewrite status_of_zero, <- (test_status_bool L Hw). lia.
-Qed.
-
-Lemma test_success_status_zero : forall L, test_success L = true -> cli_status CmdT L = Some 0.
-Proof.
-  intros [i g o inf w] H. unfold test_success in H. cbn in H.
-  destruct i; [|discriminate]. destruct o; [discriminate|]. destruct inf; [discriminate|].
-  destruct w; [discriminate|]. reflexivity.
-Qed.
-
-Lemma test_false_zero_only_folder_crc : forall L,
-  cli_status CmdT L = Some 0 -> test_success L = false ->
-  l_is7z L = true /\ l_open L = None /\ l_info L = None /\ l_work L = Some (XCrc false).
-Proof.
-  intros [i g o inf w] Hs Hf. unfold cli_status, test_success in *. cbn in *.
-  destruct i; cbn in *; [|discriminate].
-  dex o; cbn in *; try discriminate; dex inf; cbn in *; try discriminate; dex w; cbn in *; try discriminate; auto.
+  intros L. unfold cli_status. cbn. rewrite status_of_zero, <- (test_status_bool L). lia.
 Qed.
 
 Lemma test_damaged_nonzero : forall L,
-  l_is7z L = false \/ l_open L <> None \/ (l_work L <> None /\ l_work L <> Some (XCrc false)) ->
-  proc_status (run_test L) <> 0.
+  l_is7z L = false \/ l_open L <> None \/ l_work L <> None -> proc_status (run_test L) <> 0.
 Proof.
-  intros L H Hz.
-  assert (Hw : l_work L <> Some (XCrc false)).
-  { destruct H as [H|[H|[_ H]]]; [| |exact H]; intro Hc; revert Hz; destruct L as [i g o inf w]; cbn in *.
-    - subst i. discriminate.
-    - unfold run_test. cbn. destruct i; [|discriminate]. dex o; cbn; try discriminate. congruence. }
-  apply Z.eqb_eq in Hz. rewrite (test_status_bool L Hw) in Hz.
+  intros L H Hz. apply Z.eqb_eq in Hz. rewrite test_status_bool in Hz.
   unfold test_success in Hz. destruct L as [i g o inf w]. cbn in *.
   destruct i; [|discriminate]. destruct o; [discriminate|]. destruct inf; [discriminate|].
-  destruct w; [discriminate|]. destruct H as [H|[H|[H _]]]; congruence.
+  destruct w; [discriminate|]. destruct H as [H|[H|H]]; congruence.
 Qed.
 
-(* testzip itself *)
-Lemma testzip_none_iff : forall w, testzip w = TzNone <-> (w = None \/ w = Some (XCrc false)).
-Proof. intros w. dex w; cbn; split; intro H; auto; try discriminate; destruct H; discriminate. Qed.
+(* a folder-level CRC mismatch (CrcError without a member name) is reported by t as by x *)
+Lemma folder_crc_nonzero : forall L, l_work L = Some (XCrc false) ->
+  proc_status (run_test L) <> 0 /\ proc_status (run_extract false false L) <> 0.
+Proof.
+  intros L H. split; [apply test_damaged_nonzero | apply extract_damaged_nonzero]; right; right; congruence.
+Qed.
+
+(* testzip itself: None exactly when the worker raised nothing *)
+Lemma testzip_none_iff : forall w, testzip w = TzNone <-> w = None.
+Proof. intros w. dex w; cbn; split; intro H; auto; discriminate. Qed.
+
 
 (* l *)
 Lemma list_status_bool : forall L, (proc_status (run_list L) =? 0) = list_success L.
@@ -318,31 +289,19 @@ Qed.
 Lemma write_steps_status : forall L, (proc_status (write_steps L) =? 0) = write_ok L.
 Proof. intros [i g o inf w]. unfold write_steps, write_ok. cbn. dex o; cbn; try reflexivity; dex w; reflexivity. Qed.
 
-(* c -v SIZE with a documented SIZE: FALSE that it creates volumes of the size denoted *)
-Lemma create_accepts_help_grammar_refuted :
-  exists v, in_help_grammar v = true /\
-    forall arc p L, fst (fst (run_create (Some v) arc false p L)) = RRaise XKeyError \/
-                    (p && l_getpass_warn L = true).
-Proof.
-  exists [49; 48; 48; 48]. split; [reflexivity|]. intros arc p L.
-  unfold run_create. replace (check_volumesize_valid [49; 48; 48; 48]) with true by reflexivity. cbn [negb].
-  destruct (p && l_getpass_warn L); [right; reflexivity|left].
-  replace (volumesize_unitconv_x [49; 48; 48; 48]) with UcKeyError by reflexivity. reflexivity.
-Qed.
-
-(* with a unit letter the volume size handed to multivolumefile is the size denoted, the archive
-   name ends in .7z, and the status is that of the library steps *)
-Lemma create_accepts_help_grammar_partial : forall v arc p L,
-  in_help_grammar v = true -> has_unit_suffix v = true -> Z.of_nat (length v) <= 4301 ->
-  p && l_getpass_warn L = false ->
+(* c -v SIZE with a documented SIZE: the volume size handed to multivolumefile is the size denoted, the
+   archive name ends in .7z, and the status is that of the library steps *)
+Lemma create_accepts_help_grammar : forall v arc p L,
+  in_help_grammar v = true -> num_digits v <= 4300 -> p && l_getpass_warn L = false ->
   run_create (Some v) arc false p L = (write_steps L, create_target arc, Some (help_size v)).
 Proof.
-  intros v arc p L Hg Hu Hl Hp. unfold run_create.
-  rewrite (check_valid_covers_help v Hg), Hp. cbn [negb].
-  pose proof (volsize_accepts_help_grammar_partial v Hg Hu Hl) as Hc.
+  intros v arc p L Hg Hl Hp. unfold run_create.
+  destruct (volsize_accepts_help_grammar v Hg Hl) as [Hv Hc].
+  rewrite Hv, Hp. cbn [negb].
   unfold volumesize_unitconv in Hc. destruct (volumesize_unitconv_x v); try discriminate.
   inversion Hc. reflexivity.
 Qed.
+
 
 Lemma create_no_volume : forall arc p L, p && l_getpass_warn L = false ->
   run_create None arc false p L = (write_steps L, create_target arc, None).
